@@ -412,8 +412,9 @@ class MultiServiceResponsePacket(SendUnitDataResponsePacket):
             next(end)  # advance end by 1 so 2nd item is the end index for the first item
             reply_data = [self.data[i:j] for i, j in zip_longest(start, end)]
 
-            padding = bytes(46)  # pad the front of the packet so it matches the size of
-            # a read tag response, probably not the best idea but it works for now
+            # front each embedded reply with the enclosing reply's encapsulation header and CPF framing so it matches
+            # the layout of a read tag response and is judged by the enclosing encapsulation status as well
+            padding = self.raw[:46].ljust(46, b"\x00")
 
             for data, request in zip(reply_data, self.request.requests):
                 response = request.response_class(request, padding + data)
